@@ -158,6 +158,9 @@ func (g *gen) genStatement(o string, typ types.Type) error {
 		if isStruct && isNamed {
 			external := g.TypesMap.IsExternal(named)
 			fields := derive.Fields(g.TypesMap, strct, external)
+			if f := fields.Unwritable; f != nil {
+				return fmt.Errorf("unsupported field %s of %s: its type %s cannot be written outside of its package", f.DebugName(), g.TypeString(typ), f.Type)
+			}
 			if len(fields.Fields) == 0 {
 				p.P("return 17")
 				return nil
